@@ -15,6 +15,10 @@ UNSAFE_PRINTABLE = " \"<>\\^`{|}"
 LATIN1 = "éüñß\xa0\xad"
 BMP = "€中日本語ЖΩ​‍‮﻿́ﬁ℀／：＃＠？"
 ASTRAL = "😀𝕦𝔘\U0001F1E6\U00010348\U000E0001"
+# characters whose code point, truncated to 8 or 16 bits, is an ASCII character that matters (hex digits, '%', delimiters):
+# a narrowing cast or a table indexed by the low byte confuses them with that character
+ALIAS_TARGETS = "0123456789abcdefABCDEF%+/&=;#?@: ."
+ALIAS_CHARS = [chr(off + ord(c)) for c in ALIAS_TARGETS for off in (0x100, 0x400, 0x2000, 0x10000, 0x10300) if not (0xD800 <= off + ord(c) <= 0xDFFF)]
 LONE_HIGH = "\ud83d"
 LONE_LOW = "\udc80"
 
@@ -61,7 +65,10 @@ class TextGen:
         if k < 0.85:
             return "malformed", r.choice(MALFORMED)
         if k < 0.88:
-            return "dots", r.choice([".", "..", "./", "../", "/.", "/..", "..."])
+            return "dots", r.choice([".", "..", "./", "../", "/.", "/..", "...", "..a", "...tar", "..a.b", ".a"])
+        if k < 0.895 and self.nonascii:
+            a = r.choice(ALIAS_CHARS)
+            return "alias", r.choice(["%" + a + r.choice(ALIAS_CHARS), "%4" + a, "%" + a + "1", a, a + a])
         if not self.nonascii:
             return "unres", r.choice(UNRESERVED)
         if k < 0.92:
@@ -193,7 +200,7 @@ class URLGen:
         for _ in range(n):
             k = r.random()
             if k < 0.12:
-                segs.append(r.choice([".", "..", "%2E", "%2e%2E", ".%2E", "...", ".a", "a."]))
+                segs.append(r.choice([".", "..", "%2E", "%2e%2E", ".%2E", "...", ".a", "a.", "..a", "...tar", "..a.b"]))
             elif k < 0.2:
                 segs.append("")
             else:
